@@ -193,6 +193,20 @@ func c18Values(r *core.Rand) []sharedValue {
 			add(fmt.Sprintf("EncryptedLeaseSet/parsed%d", i), &ls)
 		}
 	}
+	// offline block signed by a foreign key, content correctly signed by the transient key: every
+	// Verify must fail, alone and under concurrency
+	if ls, _, err := lease_set2.ReadLeaseSet2(signedLeaseSet2With(r, 7, true, 7, true).bytes); err == nil {
+		ls := ls
+		add("LeaseSet2/forged-offline", &ls, func() string { return fmt.Sprint(ls.Verify() == nil) })
+	}
+	if ls, _, err := meta_leaseset.ReadMetaLeaseSet(signedMetaWith(r, 7, true, 11, true).bytes); err == nil {
+		ls := ls
+		add("MetaLeaseSet/forged-offline", &ls, func() string { return fmt.Sprint(ls.Verify() == nil) })
+	}
+	if ls, _, err := encrypted_leaseset.ReadEncryptedLeaseSet(signedELSWith(r, 7, true, 7, true).bytes); err == nil {
+		ls := ls
+		add("EncryptedLeaseSet/forged-offline", &ls, func() string { return fmt.Sprint(ls.Verify() == nil) })
+	}
 	l2, _ := gen.LeaseSet2(r)
 	l2.Dest, _ = identWithKey(r, key, rm.IdentCryptoTypes)
 	l2.Offline, l2.Flags = nil, 0
